@@ -357,11 +357,7 @@ theorem reachableSep_nonvacuous (env : Env) (cfg : GenesisConfig)
   have hpools : ∀ k, (genesisState cfg).pools.get k = none := fun k => rfl
   obtain ⟨ss, hs⟩ := sealState_ok env (genesisState cfg) none hg.counts (fun tx htx => nomatch htx) List.nodup_nil
     (fun k p h => by rw [hpools] at h; cases h)
-    (fun k _ p h => by
-      rcases createBuiltins_get (genesisState cfg) k with e | e
-      · rw [e, hpools] at h; cases h
-      · rw [e] at h; cases h; exact builtinDefault_facts.2.2.1)
-    (fun p h => by rw [hpools] at h; cases h) (fun k _ p h => by rw [hpools] at h; cases h)
+    (fun p h => by rw [hpools] at h; cases h)
     (by show melInflow [] ≤ 2 ^ 124; decide) (by show cfg.initFeePool + 0 + 2 ^ 21 ≤ 2 ^ 127; omega)
     (by show 0 < TIP_909_HEIGHT + 128 * SUBSIDY_HALVING; decide)
   obtain ⟨-, s', hn⟩ := reachable_header_ok env _ none ss h1.reachable hrf hs
